@@ -38,6 +38,8 @@ type rw struct {
 	info *types.Info
 	n    int
 	file *ast.File
+
+	timeUsed bool
 }
 
 func die(format string, a ...any) {
@@ -244,6 +246,7 @@ func (r *rw) rewrite(n ast.Node) string {
 		}
 		return "vsched.Cancel(" + r.any(x.Fun) + ")"
 	case *ast.SelectorExpr:
+		r.timeUsed = true
 		return "vtime." + x.Sel.Name
 	case *ast.GoStmt:
 		return r.goStmt(x)
@@ -361,6 +364,7 @@ func (r *rw) selectStmt(s *ast.SelectStmt) string {
 		}
 		idx++
 	}
+	sw.WriteString("default:\npanic(\"vsched: bad select arm\")\n")
 	return fmt.Sprintf("if vsched.On() {\n%sswitch vsched.Select(%v%s) {\n%s}\n} else {\nselect {\n%s}\n}", hoist.String(), hasDefault, cases.String(), sw.String(), orig.String())
 }
 
@@ -414,7 +418,7 @@ func (r *rw) rangeStmt(s *ast.RangeStmt, label string) string {
 			first.WriteString(strings.Join(l, ", ") + " " + tok + " " + strings.Join(rr, ", ") + "\n")
 		}
 	}
-	out := lab + head.String() + first.String() + body + "}"
+	out := lab + head.String() + first.String() + "{\n" + body + "}\n}"
 	if pre.Len() > 0 || label != "" {
 		return "{\n" + pre.String() + out + "\n}"
 	}
@@ -473,6 +477,9 @@ func (r *rw) fileText() string {
 	}
 	b.Write(r.src[p:])
 	b.WriteString("\nvar _ = vsched.On\nvar _ = vtime.Now\n")
+	if r.timeUsed {
+		b.WriteString("var _ time.Duration\n")
+	}
 	return b.String()
 }
 
@@ -482,6 +489,9 @@ func main() {
 	flag.Parse()
 	if *out == "" || flag.NArg() == 0 {
 		die("usage: vinstr -repo R -out DIR pkgdir...")
+	}
+	if abs, err := filepath.Abs(*out); err == nil {
+		*out = abs
 	}
 	var pats []string
 	for _, a := range flag.Args() {
